@@ -63,6 +63,15 @@ void add_sim_time_us(uint64_t us);
 // process dies (used as the violation key for sanitizer/signal deaths).
 void set_context(const std::string& ctx);
 
+// ---------------------------------------------------------------- allocation accounting support
+// Engines that balance malloc/free of the code under test (leak oracle) ignore allocations made
+// while this depth is non-zero. All vsim and vfs entry points raise it for their own duration.
+extern int g_harness_depth;
+struct Quiet {
+  Quiet() { g_harness_depth++; }
+  ~Quiet() { g_harness_depth--; }
+};
+
 // ---------------------------------------------------------------- verdicts
 
 struct Violation {
